@@ -155,6 +155,7 @@ class ExprMixin:
         for st1, vals in self.ev_list(node.elts, st, frame):
             et = self.join_types([v.t for v in vals], frame, node)
             c = self.new_cont(T('list', [et]), st1)
+            c.empty_literal = (not vals) and self.hint_type(node, frame) is None
             for v in vals:
                 self.l_append(c, v, st1)
             yield st1, c
@@ -162,8 +163,10 @@ class ExprMixin:
     def ev_Dict(self, node, st, frame):
         if node.keys:
             raise VCError('non-empty dict display')
-        t = self.hint_type(node, frame) or T('dict', [STR, ANYREF])
-        yield st, self.new_cont(t, st)
+        h = self.hint_type(node, frame)
+        c = self.new_cont(h or T('dict', [STR, ANYREF]), st)
+        c.empty_literal = h is None
+        yield st, c
 
     def ev_Set(self, node, st, frame):
         elts = []
@@ -630,6 +633,23 @@ class ExprMixin:
         if isinstance(v, Cont):
             yield st, FuncV('contmethod', recv=v, name=attr)
             return
+        if isinstance(v, Sc) and v.t.kind == 'ident':
+            from .types import Ident, RData
+            names = {'kind': (0, INT), 'key': (1, STR), 'type': (2, INT), 'class_': (3, INT)}
+            if attr in names:
+                i, t = names[attr]
+                yield st, Sc(Ident.accessor(0, i)(v.term), t)
+                return
+            rd = Ident.accessor(0, 4)(v.term)
+            for ci in range(RData.num_constructors()):
+                for ai in range(RData.constructor(ci).arity()):
+                    a = RData.accessor(ci, ai)
+                    if a.name() == 'rd_' + attr:
+                        tt = {'Str': STR, 'Int': INT, 'Bytes': BYTES, 'OptInt': OPTINT}.get(a.range().name())
+                        if tt is None:
+                            tt = T('list', [INT])
+                        yield st, self.wrap(a(rd), tt)
+                        return
         if isinstance(v, (Sc, PyConst)) and v.t.kind in ('str', 'bytes'):
             yield st, FuncV('strmethod', recv=v, name=attr)
             return
